@@ -117,6 +117,50 @@ func TestSideBySide(t *testing.T) {
 	}, checkTree)
 }
 
+// deepChain builds containers nested depth deep (kinds rotating), a number at the bottom.
+func deepChain(depth int, kinds []amf0ref.Kind) amf0ref.Val {
+	v := amf0ref.Val{K: amf0ref.Number, Num: 0x4045000000000000}
+	for i := depth; i > 0; i-- {
+		k := kinds[i%len(kinds)]
+		c := amf0ref.Val{K: k, Props: []amf0ref.Prop{{Key: []byte("n"), Val: v}}}
+		if k == amf0ref.Ecma {
+			c.Count = 1
+		}
+		v = c
+	}
+	return v
+}
+
+// TestDeepNesting: chains of containers far deeper than the random trees.
+func TestDeepNesting(t *testing.T) {
+	rec := ev.New(prop, "deep-nesting", "deterministic: chains of objects / ECMA arrays / strict arrays nested 64, 127, 128, 129, 130, 255, 256, 257, 1000 deep through checkTree (round trip, Size, re-marshal, wire order); all non-trivial")
+	rec.Exhaustive()
+	for _, depth := range []int{64, 127, 128, 129, 130, 255, 256, 257, 1000} {
+		for _, kinds := range [][]amf0ref.Kind{{amf0ref.Object}, {amf0ref.Ecma}, {amf0ref.Strict}, {amf0ref.Object, amf0ref.Ecma, amf0ref.Strict}} {
+			v := deepChain(depth, kinds)
+			for i := range []int{0} {
+				_ = i
+			}
+			zero(&v)
+			err := ev.Try(func() error { return checkTree(v) })
+			rec.Case(true, ev.Hash(depth, kinds), nil, func() any { return map[string]any{"depth": depth, "kinds": kinds} })
+			if err != nil {
+				err = fmt.Errorf("depth %d: %v", depth, err)
+				p := ev.Fail(prop, "tree", v, err)
+				t.Fatalf("%v (replay %s)", err, p)
+			}
+		}
+	}
+}
+
+// zero clears the ECMA counts (what Set-built arrays carry in this library).
+func zero(v *amf0ref.Val) {
+	v.Count = 0
+	for i := range v.Props {
+		zero(&v.Props[i].Val)
+	}
+}
+
 func sampleOf(v amf0ref.Val) any {
 	b := amf0ref.Encode(v, amf0ref.Lib)
 	if len(b) > 96 {
